@@ -28,7 +28,7 @@ def owner_of(mm):
     return OWNER.get(mm['component'], '?')
 
 
-def run(verdict, scenarios, limit=None, extra_owned=()):
+def run(verdict, scenarios, limit=None, extra_owned=(), owns=None):
     """scenarios: list of scenario names (ikemodel.SCENARIOS). Fills verdict.coverage; reports violations of verdict.prop."""
     prop = verdict.prop
     cov = {'states': 0, 'transitions': 0, 'traces_validated_against_impl': 0, 'steps_compared': 0, 'scenarios': {},
@@ -57,7 +57,7 @@ def run(verdict, scenarios, limit=None, extra_owned=()):
         seen = set()
         for mm in r['mismatches']:
             own = owner_of(mm)
-            if own == prop or mm['component'] in extra_owned:
+            if own == prop or mm['component'] in extra_owned or (owns is not None and owns(mm)):
                 sig = {'component': mm['component'], 'at': mm['at'], 'scenario': sc}
                 key = (mm['component'], mm['at'])
                 if key in seen:
